@@ -264,9 +264,10 @@ func (p *WorkerPool) Resize(maxWorkers int) {
 			select {
 			case p.taskQueue <- task:
 			default:
-				// Queue full, notify caller of failure
+				// Queue full: close the result channel so SubmitWait reports
+				// the task as not executed and the caller runs it itself
 				if task.ResultChan != nil {
-					task.ResultChan <- nil
+					close(task.ResultChan)
 				}
 			}
 		}
@@ -274,7 +275,7 @@ func (p *WorkerPool) Resize(maxWorkers int) {
 		// Pool wasn't running, notify callers of dropped tasks
 		for _, task := range pendingTasks {
 			if task.ResultChan != nil {
-				task.ResultChan <- nil
+				close(task.ResultChan)
 			}
 		}
 	}
